@@ -63,10 +63,14 @@ type Heap struct {
 	m     map[string]string
 	sorts map[string]Sort
 	epoch int
+	pfEpoch map[int]int // private-field arrays are havocked individually
 }
 
 func (h *Heap) clone() *Heap {
-	n := &Heap{m: make(map[string]string, len(h.m)), sorts: make(map[string]Sort, len(h.sorts)), epoch: h.epoch}
+	n := &Heap{m: make(map[string]string, len(h.m)), sorts: make(map[string]Sort, len(h.sorts)), epoch: h.epoch, pfEpoch: make(map[int]int, len(h.pfEpoch))}
+	for k, v := range h.pfEpoch {
+		n.pfEpoch[k] = v
+	}
 	for k, v := range h.m {
 		n.m[k] = v
 	}
